@@ -28,7 +28,7 @@ theorem commitReqs_eq (n : Nat) (ps : List Nat) : commitReqs F n ps = reqs n ps 
   simp [reqs]
 
 theorem openLocs_eq : openLocs F = [.current, .merged] := by decide
-theorem historicLocs_eq : historicLocs F = [.merged, .current] := by decide
+theorem historicLocs_eq : historicLocs F = [.current, .merged] := by decide
 theorem roCommitBlocked_eq : roCommitBlocked F = true := by decide
 theorem openCommitsOnlyIfRW_eq : F.openCommitsOnlyIfRW = true := rfl
 
